@@ -181,7 +181,7 @@ func (e *Engine) checkProperty(prop, tier string, par int, writeLedger bool) int
 				}
 			}
 			rec["model"] = model
-			if o.Res.Status == "sat" {
+			if o.Res.Status == "sat" && !o.Direct {
 				rp := e.replay(o, prop)
 				rec["replay"] = rp
 				if rp.Reproduced {
@@ -371,7 +371,7 @@ func (e *Engine) evidence(prop, tier string, seed int, rr *runResult, extra *ext
 	var samples []interface{}
 	n := 0
 	for _, o := range rr.obls {
-		if o.Kind == "cover" || o.Kind == "canary" || !o.ok() {
+		if o.Kind == "cover" || o.Kind == "canary" || !o.ok() || o.Direct {
 			continue
 		}
 		if n < 2 && (o.Kind == "post" || o.Kind == "impl" || strings.HasPrefix(o.Kind, "inv")) {
